@@ -226,8 +226,9 @@ def oStep (s : OSt) : Ev → OSt
                if nondisc || q ≤ max l s.prevQ then s else s.flag "c15-queue-limit"
              | none => s)
           else s
-        -- C14 queuer never idles a worker while a job waits
-        let s := if s.info.router == RouterKind.q && q > 0 && act < live.length && s.info.rl.isNone
+        -- C14 queuer never idles a worker while a job waits (with or without a rate limiter: a refused job is
+        -- discarded as RateLimited, never left waiting)
+        let s := if s.info.router == RouterKind.q && q > 0 && act < live.length
           then s.flag "c14-queuer-idle-worker" else s
         -- C14: worker-queueing routers never leave a job in the factory queue while the pool is non-empty
         let s := if !isFactoryQueueing s.info.router && s.requested > 0 && q > 0
